@@ -117,11 +117,14 @@ class Handlers(UserDict):
         self._resolve.cache_clear()  # type: ignore[attr-defined]
 
     def __ior__(self, other: Any) -> Handlers:
-        result = super().__ior__(other)
-
-        # NOTE: UserDict.__ior__() updates self.data directly, bypassing
-        #   __setitem__(), so the resolver cache must be invalidated here too.
-        self._resolve.cache_clear()  # type: ignore[attr-defined]
+        try:
+            result = super().__ior__(other)
+        finally:
+            # NOTE: UserDict.__ior__() updates self.data directly, bypassing
+            #   __setitem__(), so the resolver cache must be invalidated here
+            #   too (also when ``other`` fails part-way: the pairs seen before
+            #   the failure have already been applied).
+            self._resolve.cache_clear()  # type: ignore[attr-defined]
 
         return cast(Handlers, result)
 
